@@ -68,6 +68,7 @@ type Outcome struct {
 	Msg   string `json:"msg,omitempty"`
 	Panic string `json:"panic,omitempty"`
 	File  string `json:"file,omitempty"` // the file the error names (library errors that have one)
+	IUT   string `json:"iut,omitempty"`  // the user type the error names (IncorrectUserType), if any
 }
 
 type libErr interface {
@@ -86,6 +87,9 @@ func outcomeOf(err error) Outcome {
 		o := Outcome{Code: le.ErrCode(), Pos: int(le.Position()), Kind: "liberr", Msg: le.Message()}
 		if fn, ok := le.(interface{ Filename() string }); ok {
 			o.File = fn.Filename()
+		}
+		if ut, ok := le.(interface{ IncorrectUserType() string }); ok {
+			o.IUT = ut.IncorrectUserType()
 		}
 		return o
 	}
